@@ -57,6 +57,7 @@ type Obligation struct {
 	rt         *replayTemplate
 	valueKeys  []string
 	valueTerms []string
+	smallTerms []string
 }
 
 // Site is a recorded call event.
@@ -74,11 +75,13 @@ type Site struct {
 	Block      *ssa.BasicBlock
 	Index      int
 	Pos        token.Pos
+	Missing    bool
 }
 
 type BState struct {
 	reach string
 	heap  *Heap
+	lastNow string // instant of the most recent time.Now() reading on this path (empty: none known)
 	ac    string // allocation counter: every object existing at this point has a smaller id
 }
 
@@ -125,6 +128,8 @@ type FnTrans struct {
 	curState *BState
 	curEnv   *Env
 	idxCands []Val
+	storeSites map[*ssa.Store][]string
+	missingSites []SiteDecl
 	floatUsed bool
 	usedGlobalInvs map[string]Clause
 	modAllowed []string
@@ -225,7 +230,9 @@ func (tr *FnTrans) safety(kind, what string, st *BState, cond string, pos token.
 	tr.assume(st.reach, cond, "after safety:"+kind)
 }
 
-func (tr *FnTrans) text(o *Obligation) string {
+func (tr *FnTrans) text(o *Obligation) string { return tr.textWith(o, nil) }
+
+func (tr *FnTrans) textWith(o *Obligation, extra []string) string {
 	var b strings.Builder
 	b.WriteString("(set-option :produce-models true)\n")
 	if tr.smt.intMode {
@@ -260,6 +267,9 @@ func (tr *FnTrans) text(o *Obligation) string {
 	fmt.Fprintf(&b, "(assert %s)\n", o.Guard)
 	if o.Expect == "unsat" {
 		fmt.Fprintf(&b, "(assert (not %s))\n", o.Goal)
+	}
+	for _, x := range extra {
+		fmt.Fprintf(&b, "(assert %s)\n", x)
 	}
 	b.WriteString("(check-sat)\n")
 	if len(o.valueTerms) > 0 {
@@ -391,6 +401,10 @@ func (tr *FnTrans) wf(term string, t types.Type, guard, origin string) {
 		}
 	case *types.Interface:
 		tr.assume(guard, fmt.Sprintf("(and (>= (itag %s) 0) (=> (= (itag %s) 0) (= (idata %s) 0)))", term, term, term), "wf "+origin)
+		if nt, ok := t.(*types.Named); ok && nt.Obj().Pkg() != nil && nt.Obj().Pkg().Path() == "reflect" && nt.Obj().Name() == "Type" {
+			// reflect never hands out a nil Type from Type(), Elem(), Field(i).Type (it panics instead)
+			tr.assume(guard, fmt.Sprintf("(not (= (itag %s) 0))", term), "reflect.Type values are non-nil")
+		}
 	case *types.Struct:
 		name := tr.smt.sortOf(t)
 		for i := 0; i < u.NumFields(); i++ {
